@@ -10,7 +10,7 @@ GenGraph == ndJsonDeserialize(IOEnv.GRAPH)[1].libs
 GNext == /\ d < MaxDepth /\ d' = d + 1
          /\ LET k == RandomElement(IF d >= 0 THEN WKinds ELSE {})     \* mentions a variable: not cached as a constant
             IN e' \in (IF WrapsK(e, k) = {} THEN WrapsK(e, 6) ELSE WrapsK(e, k))
-GenSpec == BInit /\ RInit /\ [][GNext /\ UNCHANGED <<rvars, tab>>]_<<bvars, rvars, tab>>
+GenSpec == BInit /\ RInit /\ lcells = <<>> /\ envs = <<>> /\ [][GNext /\ UNCHANGED <<rvars, tab, ovars>>]_<<bvars, rvars, tab, ovars>>
 Emit == LET M == N(e) IN PrintT(<<"CASE", ToJson([e |-> e, names |-> SetToSeq({<<n, M[n]>> : n \in DOMAIN M})])>>)
 GenOK == W(e)
 ASSUME GraphWF
